@@ -182,6 +182,14 @@ def history_search(case):
             events += [("set",) + e for e in SET_EVENTS["batched"]]
         if name in M.SPARSE:
             events += [("set",) + e for e in SET_EVENTS["sparse"]] + [("path1",)]
+        if hasattr(m0, "ovo"):
+            events.append(("set", "ovo", not m0.ovo))
+        if hasattr(m0, "kernel") and y1 is None:
+            events.append(("set", "kernel", "cosine" if m0.kernel != "cosine" else "linear"))
+        if hasattr(m0, "metric") and y1 is None:
+            events.append(("set", "metric", "cosine" if m0.metric != "cosine" else "l1"))
+        if hasattr(m0, "gemini") and isinstance(m0.gemini, str):
+            events.append(("set", "gemini", "tv_ova" if m0.gemini != "tv_ova" else "mi"))
     else:
         events += [("set",) + e for e in SET_EVENTS["Kauri"]]
     where = dict(estimator=name, spec=str(SPECS[name][si]))
